@@ -1,6 +1,8 @@
 import Lean.Data.Json
 import AnonModel.Model.Wire
 import AnonModel.Model.WireBn
+import AnonModel.Model.Base64
+import AnonModel.Model.WirePv
 /-! Line-protocol handlers for the hand-written codecs (C15): `codec_nonce`, `codec_revlist`, `codec_ver`, `codec_attrvalue`. -/
 open Lean
 namespace AnonModel.Driver
@@ -28,6 +30,41 @@ def stepWire (op : String) (j : Json) : Option Json :=
     -- a revealed encoding (decimal string of an integer) after one binary hop of the W3C proof value
     match j.getObjVal? "z" with
     | .ok (.str z) => (z.toInt?).map (fun i => Json.str (toString (WireBn.hopBin i)))
+    | _ => none
+  | "b64_encode" =>
+    -- `utils::base64::encode` of a byte string (array of numbers below 256)
+    match j.getObjVal? "bytes" with
+    | .ok (.arr a) =>
+      match a.toList.mapM (fun x => match x with
+          | .num n => if n.exponent = 0 ∧ 0 ≤ n.mantissa ∧ n.mantissa < 256 then some n.mantissa.toNat else none
+          | _ => none) with
+      | some bs => some (Json.str (String.ofList (Base64.encode bs)))
+      | none => none
+    | _ => none
+  | "b64_decode" =>
+    -- `utils::base64::decode` of a text
+    match j.getObjVal? "s" with
+    | .ok (.str s) => some (match Base64.decode s.toList with
+        | some bs => Json.arr (bs.map (fun b => Json.num (JsonNumber.fromNat b))).toArray
+        | none => wErr)
+    | _ => none
+  | "codec_pv" =>
+    -- the tagged proof value `[tag, payload]` (hand-written visitor of DataIntegrityProofValue)
+    match j.getObjVal? "items" with
+    | .ok (.arr a) =>
+      match a.toList.mapM (fun x => match x.getObjVal? "int", x.getObjVal? "payload" with
+          | .ok (.num n), _ => if n.exponent = 0 then some (WirePv.Item.int n.mantissa) else none
+          | _, .ok (.num n) => if n.exponent = 0 ∧ 0 ≤ n.mantissa then some (WirePv.Item.payload n.mantissa.toNat) else none
+          | _, _ => if x == Json.str "other" then some WirePv.Item.other else none) with
+      | some items => some (match WirePv.de items with
+          | some k => Json.num (JsonNumber.fromNat k)
+          | none => wErr)
+      | none => none
+    | _ => none
+  | "pv_decode" =>
+    -- the text of a proof value gets past the multibase / base64 layer of `format::base64_msgpack`
+    match j.getObjVal? "s" with
+    | .ok (.str s) => some (Json.mkObj [("accepted", Json.bool (Base64.envelopeDecode s.toList).isSome)])
     | _ => none
   | "codec_nonce" =>
     match j.getObjVal? "j" with
